@@ -94,10 +94,20 @@ SUB_SCALAR = [("'ab'", 'MyStr'), ("'ab'", 'np.str_'), ("b'ab'", 'MyBytes'), ('1'
 SUB_PLAIN = ["None", "True", "0", "1", "2", "1.0", "1.5", "'a'", "'b'", "b'a'", "2**70"]
 
 
+SUB_BASE = {'OrderedDict': 'dict', 'Counter': 'dict', 'defaultdict_int': 'dict', 'defaultdict_list': 'dict', 'defaultdict_none': 'dict',
+            'MyDict': 'dict', 'MyDictAttr': 'dict', 'MySet': 'set', 'MyFrozenset': 'frozenset', 'MyArr': 'array', 'recarray': 'array',
+            'masked': 'array', 'masked1': 'array'}
+
+
+def sub_base(cls):
+    """the dispatched base type (dict / set / frozenset / array) of a subclass name of hashworker.SUBCLASSES, or None"""
+    return SUB_BASE.get(cls.partition(':')[0])
+
+
 def gen_sub(rng):
     """an instance of a subclass of dict / list / tuple / set / frozenset / str / bytes / int / float / ndarray (see hashworker.SUBCLASSES).
-    Such objects are pickled whole, so they are built in the order written and hold only atoms and lists/tuples of atoms (a plain
-    set or dict inside a pickle has no canonical byte form)"""
+    Such objects are pickled whole (known finding D24: their identifier depends on the hash seed / insertion order / layout; the
+    worker realises them in different orders and layouts).  They hold only atoms and lists/tuples of atoms."""
     def atom():
         return ['leaf', rng.choice(SUB_PLAIN)]
 
@@ -119,7 +129,8 @@ def gen_sub(rng):
         return ['sub', cls, ['tuple', [child() for _ in range(2 if cls != 'MyTuple' else rng.randint(0, 3))]]]
     if r < 0.75:
         k = rng.choice(['set', 'frozenset'])
-        return ['sub', 'MySet' if k == 'set' else 'MyFrozenset', [k, [['leaf', e] for e in rng.sample(['0', '1', '2', '-1', '7', '2**70'], rng.randint(0, 3))]]]
+        return ['sub', 'MySet' if k == 'set' else 'MyFrozenset',
+                [k, [['leaf', e] for e in rng.sample(['0', '1', '2', '-1', '7', '2**70', "'p'", "'q'", "'r'", "'ab'", "b'k'"], rng.randint(0, 4))]]]
     if r < 0.88:
         e, cls = rng.choice(SUB_SCALAR)
         return ['sub', cls, ['leaf', e]]
@@ -169,7 +180,7 @@ def gen_tasky(rng, depth):
     if r < 0.66:
         return ['funtasklet', gen_task(rng, depth - 1), rng.choice(['f', 'm1'])]
     if r < 0.74:
-        return ['lambda', gen_task(rng, depth - 1), rng.choice(['la', 'lb', 'lreal', 'limag', 'l1', 'l2', 'ld0', 'ld1', 'lkw0', 'lkw1', 'lc0', 'lc2'])]
+        return ['lambda', gen_task(rng, depth - 1), rng.choice(['la', 'lb', 'lreal', 'limag', 'l1', 'l2', 'ld0', 'ld1', 'lkw0', 'lkw1', 'lc0', 'lc2', 'lin', 'ltup'])]
     if r < 0.82:
         n = rng.randint(0, 7)
         ms = ['mapseq', 'm1', [str(i) for i in range(n)], rng.choice([2, 3, 4])]
@@ -209,7 +220,7 @@ def run_workers(specs, seeds, tag, mode='seq'):
             env['PYTHONPATH'] = core.VERIF + os.pathsep + core.REPO
             env['PYTHONDONTWRITEBYTECODE'] = '1'
             out = os.path.join(d, 'out%d.json' % s)
-            p = subprocess.Popen([sys.executable, '-m', 'harness.hashworker', sp, out, str(s)] + (['iso'] if mode == 'iso' else []),
+            p = subprocess.Popen([sys.executable, '-m', 'harness.hashworker', sp, out, str(s)] + ([mode] if mode in ('iso', 'trace') else []),
                                  env=env, cwd=core.VERIF,
                                  stdout=subprocess.PIPE, stderr=subprocess.PIPE, text=True)
             procs.append((s, out, p))
